@@ -249,7 +249,9 @@ theorem single_bom_ignored (t : List Char) (h : t.head? ≠ some BOM) :
 /-- (T) bom_stripped_once (regression of the former (F) `double_bom_disagrees`, fixed by aed36af): every
 entry-point family removes exactly one leading U+FEFF, so they hand the scanner the same text for EVERY
 input — in particular for an input starting with two byte-order marks, where the string path used to remove
-both (oracle id `C09-double-bom`). -/
+both (oracle id `C09-double-bom`). Since fix cbb7ef9 (C10) the remover on the reader path is the external decoder's BOM peeker (`strip_bom`), marked UTF-8 being
+handed on raw; it still removes exactly one UTF-8 mark.  (UTF-16 input that begins with two UTF-16 marks now loses both —
+peeker and decoder remove one each; no other entry point accepts UTF-16, so no disagreement: recorded in DESIGN.md.) -/
 theorem bom_stripped_once (t : List Char) :
     strPathText t = readerPathText t ∧ closureStrPathText t = readerPathText t ∧
     strPathText (BOM :: BOM :: t) = BOM :: t ∧ readerPathText (BOM :: BOM :: t) = BOM :: t := by
